@@ -52,6 +52,7 @@ func init() { props["C18"] = runC18 }
 var (
 	flagStage = flag.String("stage", "txn", "C18: txn (case files) | fields (regenerate the field table)")
 	flagChild = flag.String("child", "", "internal: run as a child process of the txn stage (txn|start)")
+	flagName  = flag.String("name", "ConfigFieldsRun", "C18 -stage fields: module name of the generated .v file")
 )
 
 // ---------- the field table, by reflection over config.Config ----------
@@ -185,7 +186,13 @@ func runFields() {
 	sb.WriteString("(* generated by harness/cmd/conf (-prop C18 -stage fields) by reflection over config.NewDefault() - do not edit *)\n")
 	sb.WriteString("From Reservoir Require Import Base.Prelude Model.ConfigProp Model.ConfigTxn Proofs.ConfigTxn.\nOpen Scope Z_scope.\n")
 	sb.WriteString("Definition cfg_table : table :=\n " + tableCoq(fs) + ".\n")
-	name := "ConfigFieldsRun.v"
+	sb.WriteString("(* obligations over the table as it is in the source now *)\n")
+	sb.WriteString("(* every setting is known to the hand-written part of the model (verify, consumers), with its kind; the table is well-formed *)\n")
+	sb.WriteString("Example cfg_fields_covered : fields_covered cfg_table = true.\nProof. vm_compute. reflexivity. Qed.\n")
+	sb.WriteString("(* the defaults are a configuration every start accepts (listen addresses: see the first step of every history) *)\n")
+	sb.WriteString("Example cfg_defaults_load : load (fun _ => true) cfg_table (FGood (defaults cfg_table)) = Ok (defaults cfg_table).\nProof. vm_compute. reflexivity. Qed.\n")
+	sb.WriteString("Print Assumptions cfg_fields_covered.\nPrint Assumptions cfg_defaults_load.\n")
+	name := *flagName + ".v"
 	if err := os.WriteFile(filepath.Join(*flagOut, name), []byte(sb.String()), 0644); err != nil {
 		panic(err)
 	}
@@ -1635,7 +1642,7 @@ func runC18() {
 	for _, l := range baseLeaves {
 		bl = append(bl, l.coq())
 	}
-	w := &emit.Writer{Dir: *flagOut, Prefix: "txn", ShardSize: 40,
+	w := &emit.Writer{Dir: *flagOut, Prefix: "txn", ShardSize: 24,
 		Imports: "From Reservoir Require Import Base.Prelude Model.ByteSize Model.ConfigProp Model.ConfigTxn Check.ConfigTxn.\n" +
 			"Definition tbl : table :=\n " + tableCoq(fs) + ".\n" +
 			"Definition base_vals : list fval := defaults tbl.\n" +
@@ -1654,9 +1661,10 @@ func runC18() {
 	// that every accepted step changes the file
 	sweepDocs := []string{`{"logging":{"compress":%t},"cache":{"max_cache_size":"%dK"}}`}
 	var sweep txnCase
+	var sweeps []txnCase
 	flush := func() {
 		if len(sweep.steps) > 2 {
-			hists = append(hists, sweep)
+			sweeps = append(sweeps, sweep)
 		}
 	}
 	newSweep := func(live bool) txnCase {
@@ -1673,12 +1681,27 @@ func runC18() {
 		tog++
 		doc := fmt.Sprintf(sweepDocs[0], tog%2 == 0, 1+tog%7)
 		sweep.steps = append(sweep.steps, stepIn{Kind: "update", Doc: doc, Limit: n})
-		if len(sweep.steps) >= 120 {
+		if len(sweep.steps) >= 90 {
 			flush()
-			sweep = newSweep(len(hists)%2 == 0)
+			sweep = newSweep(len(sweeps)%2 == 0)
 		}
 	}
 	flush()
+	// spread the (long) sweeps evenly over the case files
+	if len(sweeps) > 0 {
+		gap := len(hists)/len(sweeps) + 1
+		var merged []txnCase
+		k := 0
+		for i, h := range hists {
+			if i%gap == 0 && k < len(sweeps) {
+				merged = append(merged, sweeps[k])
+				k++
+			}
+			merged = append(merged, h)
+		}
+		merged = append(merged, sweeps[k:]...)
+		hists = merged
+	}
 
 	// run the histories, a few children at a time
 	results := make([]txnResult, len(hists))
